@@ -288,6 +288,7 @@ def make_case(rng, family=None):
             "T": T, "unant": unant, "ant": ant, "msh": msh, "init": init, "nvar": nvar,
             "warmup": int(rng.integers(1, 3)) if rng.random() < 0.5 else 0,
             "hist": int(rng.integers(0, 2 ** 31)) if rng.random() < 0.4 else None,
+            "split": bool(rng.random() < 0.3),
             "deviation_modes": [bool(rng.random() < 0.5)] if rng.random() < 0.6 else ([False, True] if rng.random() < 0.5 else [True, False]),
             "freq": str(rng.choice(["qq", "mm", "yy", "ii"]))}
 
@@ -491,7 +492,10 @@ def run_case(c, case):
                          "log_pattern": "".join("L" if q.get("log") else "-" for q in spec["tvars"])[:6]})
             try:
                 with rt.quiet():
-                    out = m.simulate(db, span, method="first_order", deviation=deviation)
+                    # force_split_frames: one frame per unanticipated-shock date instead of a single pass (the monitor's own
+                    # reference runs always use the default single frame)
+                    extra_kw = {"force_split_frames": True} if case.get("split") else {}
+                    out = m.simulate(db, span, method="first_order", deviation=deviation, **extra_kw)
                 outs[deviation] = (out, db, steady_paths)
             except Exception as exc:
                 c.violation(f"simulate:raised:{type(exc).__name__}", f"first-order simulation raised {type(exc).__name__}: {str(exc)[:200]}")
